@@ -74,6 +74,8 @@ EXTENDS Integers, Sequences, FiniteSets, TLC
 CONSTANT Skip      \* checks of the code left out: subset of CheckNames ({} = pinned code)
 
 CheckNames == {"partsigs", "aggsig", "check_fees", "kernel_verify", "validate", "restore_fee", "restore_amount", "proof",
+               "ctx_state_check",       \* NOT a mutant: absent from the pinned code (see Finalize); the runner puts it
+                                        \* into Skip while known_findings lists C02/TamperRefused/self:pre:cc_both+st_swap as known
                "restore_fee_nonzero",   \* the fee is restored from the context only when the reply names none
                "late_take"}    \* late_take: the late-lock step leaves late_lock_args in the saved context (.clone() for .take())
 
@@ -215,6 +217,7 @@ InitSend(c) ==
   [ctx |-> [sec |-> At("xF"), nonce |-> At("kF"), isec |-> At("xF"), inonce |-> At("kF"),
             ins |-> IF late THEN <<>> ELSE DealIns(c), outs |-> IF late THEN <<>> ELSE DealChg(c),
             amt |-> DealAmt(c), fee |-> DealFee(c), late |-> late, pidx |-> c.proof, locked |-> ~late,
+            recv |-> c.flow = "self",      \* a TxReceived entry of this slate in the SAME wallet (self-send)
             nsel |-> 0, resv |-> IF late THEN <<>> ELSE DealIns(c), nsent |-> IF late THEN 0 ELSE 1,
             entrypp |-> IF c.proof THEN [on |-> TRUE, saddr |-> "aF", raddr |-> "aC"] ELSE NoPP],
    slate |-> [id |-> "s", st |-> "S1", amt |-> DealAmt(c), fee |-> DealFee(c), feat |-> 0, args |-> NoArgs, ttl |-> 0,
@@ -244,7 +247,7 @@ Receive(s) ==
 IssueInvoice(c) ==
   [ctx |-> [sec |-> At("xF"), nonce |-> At("kF"), isec |-> At("xF"), inonce |-> At("kF"),
             ins |-> <<>>, outs |-> <<Out(DealAmt(c), "r1")>>, amt |-> DealAmt(c), fee |-> -1, late |-> FALSE,
-            pidx |-> FALSE, locked |-> TRUE, nsel |-> 0, resv |-> <<>>, nsent |-> 0, entrypp |-> NoPP],
+            pidx |-> FALSE, locked |-> TRUE, recv |-> TRUE, nsel |-> 0, resv |-> <<>>, nsent |-> 0, entrypp |-> NoPP],
    slate |-> [id |-> "s", st |-> "I1", amt |-> DealAmt(c), fee |-> 0, feat |-> 0, args |-> NoArgs, ttl |-> 0,
               np |-> 2, ver |-> 4, bhv |-> 3, off |-> BZero, parts |-> <<Part(At("xF"), At("kF"), NoSig)>>,
               hascoms |-> FALSE, coms |-> <<>>, pp |-> NoPP]]
@@ -264,7 +267,7 @@ ProcessInvoice(c, s, own, self) ==
              ELSE BAdd(BSub(BSub(s.off, At("xC")), SumB(ins)), SumB(chg))
       payer == [sec |-> At("xC"), nonce |-> At("kC"), isec |-> At("xC"), inonce |-> At("kC"),
                 ins |-> ins, outs |-> chg, amt |-> s.amt, fee |-> fee, late |-> FALSE, pidx |-> FALSE,
-                locked |-> TRUE, nsel |-> 0, resv |-> ins, nsent |-> 1, entrypp |-> NoPP]
+                locked |-> TRUE, recv |-> self, nsel |-> 0, resv |-> ins, nsent |-> 1, entrypp |-> NoPP]
       merged == [payer EXCEPT !.isec = own.isec, !.inonce = own.inonce, !.fee = own.fee, !.amt = own.amt,
                               !.outs = payer.outs \o own.outs, !.ins = payer.ins \o own.ins] IN
   IF msg = BadMsg THEN Err("features")
@@ -352,9 +355,15 @@ Finalize(c, ctxs, r) ==
       inv == r.st = "I2"
       a == Asm(c, ctx0, r, "code")
       tx == a.tx IN
+  \* DEFECT of the pinned code (found by this model, confirmed on the real code, fixes/C02-1.patch): the branch
+  \* is chosen by the REPLY's state alone.  A reply to a send relabelled I2 is finalized by the invoice branch,
+  \* which takes the fee from the reply and checks no payment proof; in a two-wallet send it is only stopped at
+  \* the very end (no TxReceived entry), in a self-send it goes through.  "ctx_state_check" \in Skip = the pinned
+  \* code; without it = the repaired code: a context that records a fee belongs to a transaction this wallet pays.
+  IF inv /\ "ctx_state_check" \notin Skip /\ ctx0.fee # -1 THEN Err("state")
   \* S2 branch, late lock (since 2b7911c): before anything is selected or locked the reply must carry a
   \* proof naming the recipient the original send arguments asked for
-  IF ~inv /\ ctx0.late /\ ctx0.pidx /\ ~(r.pp.on /\ r.pp.raddr = ReqAddr) THEN Err("proof")
+  ELSE IF ~inv /\ ctx0.late /\ ctx0.pidx /\ ~(r.pp.on /\ r.pp.raddr = ReqAddr) THEN Err("proof")
   \* S2 branch, late lock: tx_lock_outputs rebuilds a slate that has no transaction and needs its kernel features
   ELSE IF ~inv /\ ctx0.late /\ ~r.hascoms /\ Msg(r.feat, ctx0.fee, r.args) = BadMsg THEN Err("features")
   \* S2 branch, late lock: lock_tx_context wants the derivation index when the reply carries a proof
@@ -372,7 +381,9 @@ Finalize(c, ctxs, r) ==
   ELSE IF "kernel_verify" \notin Skip /\ ~AggValid(tx.agg, tx.excess, tx.msg) THEN Err("kernel")
   ELSE IF "validate" \notin Skip /\ ~ConsensusValid(tx) THEN Err("validate")
   ELSE IF ~inv /\ "proof" \notin Skip /\ ProofCheck(a.ctx, a, r) # "ok" THEN Err("proof")
-  ELSE IF ~a.ctx.locked THEN Err("notfound")                         \* update_stored_tx: no log entry
+  \* update_stored_tx: the S2 branch wants a TxSent entry of the slate, the I2 branch a TxReceived entry
+  ELSE IF ~inv /\ ~a.ctx.locked THEN Err("notfound")
+  ELSE IF inv /\ ~a.ctx.recv THEN Err("notfound")
   ELSE [res |-> "ok", why |-> "", tx |-> tx, a |-> a]
 
 \* ======================================================================
@@ -538,7 +549,7 @@ Exchange(c) ==
                                             !.outs = <<Out(7, "r9")>>, !.amt = 7]
                ELSE [sec |-> At("xO"), nonce |-> At("kO"), isec |-> At("xO"), inonce |-> At("kO"),
                      ins |-> <<In(InVal, "i9")>>, outs |-> <<Out(InVal - 7 - Fee(1, 2, 1), "c9")>>, amt |-> 7, fee |-> Fee(1, 2, 1),
-                     late |-> FALSE, pidx |-> FALSE, locked |-> FALSE, nsel |-> 0, resv |-> <<>>, nsent |-> 0, entrypp |-> NoPP] IN
+                     late |-> FALSE, pidx |-> FALSE, locked |-> FALSE, recv |-> FALSE, nsel |-> 0, resv |-> <<>>, nsent |-> 0, entrypp |-> NoPP] IN
   IF step.res # "ok" THEN [reply |-> FALSE, why |-> step.why]
   ELSE
   LET env == [amt |-> DealAmt(c), fee |-> DealFee(c), fin |-> init.slate.parts[1],
